@@ -320,7 +320,9 @@ struct Bits {
   }
 };
 
-enum Fill { FILL_RANDOM, FILL_EDGE, FILL_OPAQUE, FILL_PREMUL, FILL_CONST, FILL_ZERO, FILL_ONES, FILL_NFILL };
+// FILL_RUNS: runs (1-12 pixels) of all-zero, all-one and edge-valued pixels, like the masks of rendered text: SIMD loops that
+// skip groups of zero / opaque pixels take their shortcuts and leave them again within one scanline
+enum Fill { FILL_RANDOM, FILL_EDGE, FILL_OPAQUE, FILL_PREMUL, FILL_CONST, FILL_ZERO, FILL_ONES, FILL_RUNS, FILL_NFILL };
 
 // pixel value generator for a format
 inline uint32_t gen_px(pixman_format_code_t f, int fill, Mix &mx, uint32_t constant) {
@@ -456,8 +458,20 @@ inline std::unique_ptr<Image> make_image(const Bits &d) {
     }
   } else if (!is_yuv(f)) {
     uint32_t constant = (uint32_t)(d.seed * 0x9E3779B97F4A7C15ULL >> 32);
+    int run = 0, mode = FILL_EDGE;
     for (int y = 0; y < d.h; y++)
-      for (int x = 0; x < d.w; x++) raw_put(I->rowp(y), bpp(f), x, gen_px(f, d.fill, mx, constant));
+      for (int x = 0; x < d.w; x++) {
+        int fill = d.fill;
+        if (fill == FILL_RUNS) {
+          if (run == 0) {
+            run = mx.range(1, 12);
+            mode = (int[]){FILL_ZERO, FILL_ZERO, FILL_ONES, FILL_ONES, FILL_EDGE, FILL_PREMUL}[mx.range(0, 5)];
+          }
+          run--;
+          fill = mode;
+        }
+        raw_put(I->rowp(y), bpp(f), x, gen_px(f, fill, mx, constant));
+      }
   }
   I->im = pixman_image_create_bits_no_clear(f, d.w, d.h, (uint32_t *)I->row0, I->stride);
   if (I->im && is_indexed(f)) {
@@ -479,7 +493,7 @@ inline Bits gen_bits(int fmt, int maxw, int maxh) {
   b.pad = pickw({5, 2, 1});
   b.neg = coin(15);
   b.fence = pickw({6, 2, 1});
-  b.fill = pickw({4, 4, 2, 3, 1, 1, 1});
+  b.fill = pickw({4, 4, 2, 3, 1, 1, 1, 2});
   b.seed = seed64();
   b.al = (int)R(0, 15) * 4;
   return b;
